@@ -286,7 +286,13 @@ def chars_block(rng, taxa, order, nl, title=None, link=None, data_block=False, a
     fmt = "DATATYPE=%s" % dt.upper()
     feats = ["chars-" + dt]
     if dt == "standard":
+        if rng.random() < 0.35:
+            # legal NEXUS: no DATATYPE means STANDARD - whatever class the client reads the block through, and whatever
+            # type another block of the document declared (seeded change C13e)
+            fmt = ""
+            feats.append("datatype-implicit")
         fmt += ' SYMBOLS="%s"' % (sym if rng.random() < 0.5 else " ".join(sym))
+        fmt = fmt.strip()
     if dt != "continuous" and rng.random() < 0.4:
         fmt += " MISSING=? GAP=-"
     interleave = rng.random() < 0.3 and nchar >= 4
